@@ -1,9 +1,8 @@
-import IceModel.Gen.Funcs
+import IceModel.Gen.Funcs1Hit
 import IceModel.Model.Bits
 /-
-  Bridges: the operator-by-operator renderings generated from the Go source (`Ice.Gen.*`) equal the
-  arithmetic definitions the proofs use (`Ice.Model.*`), on the value ranges the code works with.
-  A change to one of these Go functions changes `Gen/Funcs.lean` and breaks the matching theorem.
+  Bridge: the operator-by-operator rendering generated from the Go source (`Ice.Gen.*`) equals the
+  arithmetic definition the proofs use (`Ice.Model.*`), on the value ranges the code works with.
 -/
 namespace Ice.Bridge
 open Ice
@@ -15,24 +14,6 @@ private theorem and_mask31 (x : Nat) : 2147483647 &&& x = x % 2 ^ 31 := by
 theorem under32Bits_eq (x : Nat) : Gen.under32Bits x = Model.under32Bits x := by
   simp [Gen.under32Bits, Model.under32Bits, Gen.Consts.mask31Bits, Model.mask31, Id.run]
   rfl
-
-theorem decodeFreqHasLocs_eq (v : Nat) : Gen.decodeFreqHasLocs v = Model.decodeFreqHasLocs v := by
-  simp only [Gen.decodeFreqHasLocs, Model.decodeFreqHasLocs, Id.run, pure, bind]
-  rw [Nat.shiftRight_eq_div_pow, Nat.and_one_is_mod]
-
-theorem encodeFreqHasLocs_eq (f : Nat) (b : Bool) :
-    Gen.encodeFreqHasLocs f b = Model.encodeFreqHasLocs f b := by
-  have hshift : f <<< 1 = f * 2 := by rw [Nat.shiftLeft_eq]
-  cases b
-  · simp [Gen.encodeFreqHasLocs, Model.encodeFreqHasLocs, Id.run, Gen.w64, Model.two64, hshift]
-    rfl
-  · simp only [Gen.encodeFreqHasLocs, Model.encodeFreqHasLocs, Id.run, Gen.w64, Model.two64, hshift,
-      pure, bind, if_true]
-    -- an even number OR 1 is that number plus 1
-    have hev : f * 2 % 2 ^ 64 = (f * 2 % 2 ^ 64 / 2) <<< 1 := by
-      rw [Nat.shiftLeft_eq]; omega
-    show (f * 2 % 2 ^ 64 ||| 1) = f * 2 % 2 ^ 64 + 1
-    rw [hev, ← Nat.shiftLeft_add_eq_or_of_lt (by omega : (1:Nat) < 2 ^ 1)]
 
 theorem fSTValDecode1Hit_eq (v : Nat) : Gen.fSTValDecode1Hit v = Model.decode1Hit v := by
   simp only [Gen.fSTValDecode1Hit, Model.decode1Hit, Id.run, Gen.Consts.mask31Bits, pure, bind]
@@ -57,18 +38,6 @@ theorem fSTValEncode1Hit_eq (d n : Nat) : Gen.fSTValEncode1Hit d n = Model.encod
   rw [h2, ← Nat.shiftLeft_add_eq_or_of_lt hrest, hsh]
   have : (1 : Nat) <<< 63 = 2 ^ 63 := by decide
   omega
-
-theorem getChunkSize_eq (m c d : Nat) (hm : m < 2 ^ 64) (hc : c < 2 ^ 64) :
-    Gen.getChunkSize m c d = Model.getChunkSize m c d := by
-  simp only [Gen.getChunkSize, Model.getChunkSize, Id.run, Gen.Consts.legacyChunkMode,
-    Gen.Consts.chunkModeV1, Gen.Consts.maxDocsToScanSequentially, Gen.w64, pure, bind]
-  have h1 : m % 2 ^ 64 = m := Nat.mod_eq_of_lt hm
-  have h2 : (c / 1024 + 1) % 2 ^ 64 = c / 1024 + 1 := Nat.mod_eq_of_lt (by omega)
-  by_cases hle : m ≤ 1024
-  · simp [hle, h1]
-  · by_cases heq : m = 1025
-    · subst heq; simp [h2]
-    · simp [hle, heq]
 
 /-- the branch test of `PostingsList.read` is "top two bits are 10" -/
 theorem read_is1Hit_eq (p : Nat) (hp : p < 2 ^ 64) : Gen.read_is1Hit p = Model.is1Hit p := by
